@@ -522,7 +522,7 @@ pub struct FamOut {
     pub oracle_check: Result<(), String>,
 }
 fn strip<S>(o: RunOutG<S>) -> RunOutG<()> {
-    RunOutG { panic: o.panic, completion: o.completion, best_value: o.best_value, best_solution: o.best_solution, lb: o.lb, ub: o.ub, explored: o.explored, gap: o.gap, polls: o.polls, fired: o.fired, exhausted: o.exhausted, self_enqueue: o.self_enqueue, log: vec![], c: o.c }
+    RunOutG { panic: o.panic, completion: o.completion, best_value: o.best_value, best_solution: o.best_solution, lb: o.lb, ub: o.ub, explored: o.explored, gap: o.gap, polls: o.polls, fired: o.fired, exhausted: o.exhausted, self_enqueue: o.self_enqueue, log: vec![], c: o.c, watchdog: o.watchdog }
 }
 pub fn run_family(case: &FamCase, opts: &RunOpts) -> FamOut {
     let mut opts = opts.clone();
